@@ -57,7 +57,7 @@ func itoa(i int) string { return strconv.Itoa(i) }
 // of it (quantified assumptions dropped after pre-instantiation): unsat of either proves the
 // obligation, sat counts only for the full query. A model of the relaxed query is returned as
 // a candidate counterexample (Candidate) when nothing decides.
-func Solve(script, relaxed, dir, base string, timeoutS int, which []string) SolveResult {
+func Solve(script, relaxed, bvabs, dir, base string, timeoutS int, which []string) SolveResult {
 	os.MkdirAll(dir, 0o755)
 	ctx, cancel := context.WithTimeout(context.Background(), time.Duration(timeoutS+2)*time.Second)
 	defer cancel()
@@ -70,6 +70,7 @@ func Solve(script, relaxed, dir, base string, timeoutS int, which []string) Solv
 		sp      solverSpec
 		script  string
 		relaxed bool
+		tag     string
 	}
 	var jobs []job
 	for _, sp := range solverSpecs {
@@ -84,9 +85,12 @@ func Solve(script, relaxed, dir, base string, timeoutS int, which []string) Solv
 				continue
 			}
 		}
-		jobs = append(jobs, job{sp, script, false})
+		jobs = append(jobs, job{sp, script, false, ""})
 		if relaxed != "" && sp.name != "z3-4.8" {
-			jobs = append(jobs, job{sp, relaxed, true})
+			jobs = append(jobs, job{sp, relaxed, true, "+inst"})
+		}
+		if bvabs != "" && sp.name == "z3-5.1" {
+			jobs = append(jobs, job{sp, bvabs, true, "+inst+bvabs"})
 		}
 	}
 	ch := make(chan res, len(jobs))
@@ -99,7 +103,7 @@ func Solve(script, relaxed, dir, base string, timeoutS int, which []string) Solv
 			}
 			tag := ""
 			if j.relaxed {
-				tag = ".qf"
+				tag = ".qf" + j.tag
 			}
 			f := filepath.Join(dir, base+"."+j.sp.name+tag+".smt2")
 			os.WriteFile(f, []byte(s), 0o644)
@@ -124,7 +128,7 @@ func Solve(script, relaxed, dir, base string, timeoutS int, which []string) Solv
 				st = "timeout"
 			}
 			os.Remove(f)
-			ch <- res{j.sp.name, st, o, secs, j.relaxed}
+			ch <- res{j.sp.name + j.tag, st, o, secs, j.relaxed}
 		}()
 	}
 	all := map[string]string{}
@@ -133,13 +137,9 @@ func Solve(script, relaxed, dir, base string, timeoutS int, which []string) Solv
 	t0 := time.Now()
 	for i := 0; i < len(jobs); i++ {
 		r := <-ch
-		key := r.name
+		all[r.name] = r.status
 		if r.relaxed {
-			key += "(relaxed)"
-		}
-		all[key] = r.status
-		if r.relaxed {
-			if r.status == "sat" && candidate == "" {
+			if r.status == "sat" && candidate == "" && !strings.Contains(r.name, "bvabs") {
 				candidate = r.out
 			}
 			if r.status != "unsat" {
@@ -165,8 +165,5 @@ func Solve(script, relaxed, dir, base string, timeoutS int, which []string) Solv
 		secs = time.Since(t0).Seconds()
 	}
 	name := best.name
-	if best.relaxed {
-		name += "+inst"
-	}
 	return SolveResult{Status: best.status, Solver: name, Seconds: secs, Output: best.out, All: all, Candidate: candidate}
 }
